@@ -183,7 +183,40 @@ if _log:
             _w({'ev': 'options', 'vals': [[k, type(v).__name__, repr(v)] for k, v in vars(m).items()
                                           if not k.startswith('__')]})
 
+    # what server.main puts into EFFECT (C18_EFFECT=1): the frame of sshuttle.server.main is found by a profile function
+    # (removed at once); at the server's first outgoing connect and at exit, the values main holds then and the read size /
+    # fullness limit the multiplexer really uses (sshuttle.ssnet.LATENCY_BUFFER_SIZE) are written to the log
+    _eff = {'frame': None, 'done': False}
+
+    def _argnames(co):
+        return co.co_varnames[:co.co_argcount]
+
+    def _prof(frame, event, arg):
+        if event == 'call':
+            co = frame.f_code
+            if co.co_name == 'main' and 'latency_buffer_size' in _argnames(co):
+                _eff['frame'] = frame
+                _eff['args'] = dict((k, repr(frame.f_locals.get(k))) for k in _argnames(co))
+                sys.setprofile(None)
+
+    def _effect(when):
+        fr = _eff['frame']
+        if fr is None or _eff['done']:
+            return
+        _eff['done'] = True
+        m = sys.modules.get('sshuttle.ssnet')
+        _w({'ev': 'effect', 'when': when, 'pid': os.getpid(), 'main_args': _eff['args'],
+            'main_now': dict((k, repr(fr.f_locals.get(k))) for k in _argnames(fr.f_code)),
+            'ssnet_LATENCY_BUFFER_SIZE': repr(getattr(m, 'LATENCY_BUFFER_SIZE', None))})
+
     def _hook(ev, args):
+        if ev == 'socket.connect' and _eff['frame'] is not None and not _eff['done'] and not _st['busy']:
+            _st['busy'] = True
+            try:
+                _effect('first outgoing connect')
+            finally:
+                _st['busy'] = False
+            return
         if _st['busy'] or ev not in ('compile', 'exec'):
             return
         _st['busy'] = True
@@ -211,6 +244,7 @@ if _log:
 
     def _final():
         _dump()
+        _effect('exit')
         _w({'ev': 'modules', 'names': [k for k in sys.modules if getattr(sys.modules[k], '__c18__', 0)
                                        or k.split('.')[0] == 'sshuttle'],
             'files': sorted(set(str(getattr(sys.modules[k], '__file__', None)) for k in sys.modules
@@ -224,6 +258,8 @@ if _log:
     sys.meta_path.insert(0, _Block)
     atexit.register(_final)
     sys.addaudithook(_hook)
+    if os.environ.get('C18_EFFECT'):
+        sys.setprofile(_prof)
 '''
 
 SERVER_STUB = (b"def main(*args):\n"
@@ -2379,12 +2415,34 @@ def missing_imports(assembler_src, uploaded):
     return miss
 
 
-def probe_options(auto_hosts, auto_nets, latency_control, ns):
-    return {"latency_control": latency_control, "latency_buffer_size": 32768, "auto_hosts": auto_hosts,
+def probe_options(auto_hosts, auto_nets, latency_control, ns, latency_buffer_size=32768):
+    return {"latency_control": latency_control, "latency_buffer_size": latency_buffer_size, "auto_hosts": auto_hosts,
             "to_nameserver": ns, "auto_nets": auto_nets}
 
 
-def probe_session(scr, options, seed_hosts, sync=None, timeout=12):
+def effect_mismatches(options, eff):
+    """C18 "the session options arrive with identical values", judged on what the RUNNING server has put into effect
+    (eff: the prelude's 'effect' record) against what the client uses (options: what client._main handed to ssh.connect;
+    the client's own multiplexer uses latency_buffer_size if it is non-zero, else the module's default — cmdline.py:35-37).
+    -> [(option, client's value, server's value in effect)]"""
+    bad = []
+    m = re.search(br"^LATENCY_BUFFER_SIZE = (\d+)\s*$", real_source_bytes("sshuttle.ssnet"), re.M)
+    CLIENT_DEFAULT_LATENCY_BUFFER_SIZE = int(m.group(1))
+    if eff is None:
+        return [("(all)", "-", "the running server's values could not be observed (server.main was never entered?)")]
+    want = repr(options["latency_buffer_size"] or CLIENT_DEFAULT_LATENCY_BUFFER_SIZE)
+    if eff["ssnet_LATENCY_BUFFER_SIZE"] != want:
+        bad.append(("latency_buffer_size", want, "sshuttle.ssnet.LATENCY_BUFFER_SIZE = %s" % eff["ssnet_LATENCY_BUFFER_SIZE"]))
+    for k in ("latency_control", "auto_hosts", "auto_nets", "to_nameserver", "latency_buffer_size"):
+        for when in ("main_args", "main_now"):
+            if eff[when].get(k) != repr(options[k]):
+                bad.append((k, repr(options[k]), "server.main holds %s (%s)" % (eff[when].get(k),
+                            "as called" if when == "main_args" else "while serving")))
+                break
+    return bad
+
+
+def probe_session(scr, options, seed_hosts, sync=None, timeout=12, brief=False):
     """One session with the really assembled real server.  options: the dict handed to the real ssh.connect, except that
     to_nameserver is replaced by '127.0.0.1@<port of a datagram socket of the harness>'.  seed_hosts: list or None, as
     client._main gets it (None: the client sends no CMD_HOST_REQ).
@@ -2405,7 +2463,7 @@ def probe_session(scr, options, seed_hosts, sync=None, timeout=12):
     os.makedirs(home)
     errpath = os.path.join(home, "stderr")
     env = {"PATH": os.environ.get("PATH", ""), "PYTHONPATH": scr.site, "C18_LOG": os.path.join(home, "log.jsonl"),
-           "PYTHONDONTWRITEBYTECODE": "1", "PYTHONHASHSEED": "0", "LANG": "C.UTF-8", "HOME": home}
+           "PYTHONDONTWRITEBYTECODE": "1", "PYTHONHASHSEED": "0", "LANG": "C.UTF-8", "HOME": home, "C18_EFFECT": "1"}
     a, b = socket.socketpair()
     errf = open(errpath, "wb")
     p = subprocess.Popen(argv, stdin=b.fileno(), stdout=b.fileno(), stderr=errf, env=env, close_fds=True, cwd=home,
@@ -2503,6 +2561,8 @@ def probe_session(scr, options, seed_hosts, sync=None, timeout=12):
             st["step"] = "CMD_TCP_CONNECT (to a closed port)"
             send(1, ssnet.CMD_TCP_CONNECT, b"%d,%s,%d" % (socket.AF_INET, b"127.0.0.1", closed.getsockname()[1]))
             ping("tcp_connect")
+            if brief:
+                raise StopLoop()
             st["step"] = "CMD_DNS_REQ"
             send(2, ssnet.CMD_DNS_REQ, b"\x12\x34\x01\x00\x00\x01\x00\x00\x00\x00\x00\x00\x07example\x03com\x00\x00\x01\x00\x01")
             ping("dns_req", ssnet.CMD_DNS_RESPONSE, 0.5)
@@ -2543,6 +2603,8 @@ def probe_session(scr, options, seed_hosts, sync=None, timeout=12):
             time.sleep(0.05)
             if p.poll() is not None:
                 raise ProbeFail("the server process ended by itself with exit status %r" % p.returncode)
+        except StopLoop:
+            pass
         except ProbeFail as e:
             failed = (st["step"], str(e))
         except (OSError, socket.timeout) as e:
@@ -2585,6 +2647,7 @@ def probe_session(scr, options, seed_hosts, sync=None, timeout=12):
         failed = ("the whole probe (all messages answered)", "an import failed on the remote side")
     return {"failed": failed, "steps": steps, "frames": st["frames"][:40], "counts": st["counts"], "stderr": err[-1200:],
             "exception": tb_last, "exit": p.returncode, "uploaded": [n for n, _ in parse_upload(writes[1])],
+            "options": options, "effect": next((e for e in log if e.get("ev") == "effect" and e.get("pid") == p.pid), None),
             "diskimport": [e["name"] for e in log if e.get("ev") == "diskimport"]}
 
 
@@ -2597,6 +2660,21 @@ def probe_what(res):
 def combo_text(c):
     return "auto_hosts=%r seed_hosts=%r auto_nets=%r latency_control=%r" % (c["auto_hosts"], c["seed_hosts"], c["auto_nets"],
                                                                            c["latency_control"])
+
+
+def effect_verdict(ctx, res, combo):
+    bad = effect_mismatches(res["options"], res["effect"])
+    ctx.count("complete_effect_observed" if res["effect"] else "complete_effect_not_observed")
+    if res["effect"]:
+        ctx.count("complete_effect_observed_at_%s" % res["effect"]["when"].replace(" ", "_"))
+    if bad:
+        k, mine, theirs = bad[0]
+        ctx.violation("the session options do not arrive with identical values: with %s = %s on the client, the running server "
+                      "(really assembled from the upload, observed after start-up while it serves messages) has %s in effect — "
+                      "client and server run the session with different values of the option"
+                      % (k, mine, theirs),
+                      {"kind": "effect", "options_json": dict(res["options"], to_nameserver=None), "combo": combo,
+                       "mismatches": [list(b) for b in bad], "effect": res["effect"]})
 
 
 def part_complete(ctx, scr):
@@ -2651,10 +2729,39 @@ def part_complete(ctx, scr):
             ctx.count("complete_probe_disk_import_attempts")
         if res["failed"] is not None:
             pfail.setdefault(probe_what(res), []).append((c, res))
+        else:
+            effect_verdict(ctx, res, c)
+    # ---- the session options IN EFFECT inside the running server, at the boundary values of the numeric option
+    F181 = []
+    try:
+        import framework
+        f181_recorded = any(k.get("id") == "F181" for k in framework.load_known("C18")["findings"])
+    except Exception:
+        f181_recorded = False
+    lbs_values = [0, 1, 2, 2047, 2048, 2049, 32767, 32768, 32769, 65536, 2 ** 31 - 1, 2 ** 31, rng.randint(1, 2047),
+                  rng.randint(2049, 1 << 20)]
+    for n, lbs in enumerate(lbs_values if not ctx.quick() else lbs_values[:1] + [1, 2047, 2048, 32768, 2 ** 31] + lbs_values[-2:]):
+        c = {"auto_hosts": bool(n & 1), "seed_hosts": None, "auto_nets": bool(n & 2), "latency_control": not (n & 4),
+             "latency_buffer_size": lbs}
+        options = probe_options(c["auto_hosts"], c["auto_nets"], c["latency_control"], None, lbs)
+        res = probe_session(scr, options, None, sync, brief=True)
+        ctx.count("complete_effect_sessions")
+        if lbs == 0 and res["failed"] is not None and "UnboundLocalError" in (res["exception"] or "") and "ssnet" in res["exception"]:
+            # F181 (fixed in /repo e2b9130): function-level import of ssnet inside `if latency_buffer_size:` in
+            # server.main left the name unbound for the value 0.  A fixed entry suppresses nothing: if this ever
+            # returns it is reported as a violation (tagged so that the report names the old finding).
+            F181.append(res)
+            ctx.count("complete_effect_F181_witness_seen")
+        ctx.case(("complete-effect", combo_text(c), lbs), nontrivial=True,
+                 sample={"kind": "options in effect in the running server", "latency_buffer_size": lbs, "effect": res["effect"]})
+        if res["failed"] is not None:
+            pfail.setdefault(probe_what(res), []).append((c, res))
+        else:
+            effect_verdict(ctx, res, c)
     for what, lst in sorted(pfail.items()):
         c, res = lst[0]
         ctx.violation("%s — for %d of the %d option combinations tried: %s" % (what, len(lst), len(combos), "; ".join(combo_text(x) for x, _ in lst)),
-                      {"kind": "probe", "combo": c, "answered_before": res["steps"], "uploaded": res["uploaded"],
+                      {"kind": "probe", "combo": c, "finding_id": "F181" if all(r in F181 for _, r in lst) else None, "answered_before": res["steps"], "uploaded": res["uploaded"],
                        "server_exit_status": res["exit"], "stderr_tail": res["stderr"][-600:], "frames": res["frames"][:20],
                        "failing_combinations": [x for x, _ in lst]})
     ctx.extra["assembled_server_probed_for_option_combinations"] = len(combos)
@@ -2733,6 +2840,23 @@ def replay(ctx, rp):
         for mod, lineno, infunc, name, why in miss:
             print("FAILS: %s line %d (%s) imports %s: %s" % (mod, lineno, "inside a function" if infunc else "module level", name, why))
         return bool(miss)
+    if r.get("kind") == "effect":
+        c = r["combo"]
+        scr = Scratch()
+        try:
+            try:
+                sync = unhx(ctx.run_driver(["SYNC"])[0].split(" ")[1])
+            except Exception:
+                sync = None
+            res = probe_session(scr, probe_options(c["auto_hosts"], c["auto_nets"], c["latency_control"], None,
+                                                   c.get("latency_buffer_size", 32768)), c["seed_hosts"], sync, brief=True)
+        finally:
+            scr.close()
+        bad = [("probe", "-", probe_what(res))] if res["failed"] is not None else effect_mismatches(res["options"], res["effect"])
+        print("client's options:", res["options"])
+        print("in effect in the running server:", res["effect"])
+        print("mismatches (option, client, server):", bad)
+        return bool(bad)
     if r.get("kind") == "probe":
         c = r["combo"]
         scr = Scratch()
@@ -2741,10 +2865,12 @@ def replay(ctx, rp):
                 sync = unhx(ctx.run_driver(["SYNC"])[0].split(" ")[1])
             except Exception:
                 sync = None
-            res = probe_session(scr, probe_options(c["auto_hosts"], c["auto_nets"], c["latency_control"], None), c["seed_hosts"], sync)
+            res = probe_session(scr, probe_options(c["auto_hosts"], c["auto_nets"], c["latency_control"], None,
+                                                   c.get("latency_buffer_size", 32768)), c["seed_hosts"], sync,
+                                brief="latency_buffer_size" in c)
         finally:
             scr.close()
-        print("options:", combo_text(c))
+        print("options:", combo_text(c), "latency_buffer_size=%r" % c.get("latency_buffer_size", 32768))
         print("uploaded modules:", res["uploaded"])
         print("answered:", res["steps"], "| server exit status:", res["exit"])
         if res["failed"] is not None:
